@@ -246,13 +246,14 @@ def run_lines(binary, args, casefile, n_expected, env=None):
         if rc != 0 and len(good) == len(cases) - start:
             good = good[:-1]          # exit status != 0 after the last case: blame the last case
         lines += good
-        crashes.append((start + len(good), rc, err[-1500:]))
+        crashes.append((start + len(good), rc, err))
         lines.append(None)
         start = start + len(good) + 1
         attempt += 1
         if attempt > 25:
             lines += [NOTRUN] * (len(cases) - len(lines))
             break
+    crashes = [(i, rc, crash_summary(e)) for (i, rc, e) in crashes]
     return lines, crashes
 
 
@@ -303,6 +304,15 @@ def process_batch(job):
         if impl and model and gi != gm and len(res['diff']) < 20:
             res['diff'].append((c, first_difference(gi, gm)))
     return res
+
+
+def crash_summary(err):
+    """the informative part of a sanitizer / assert report"""
+    lines = (err or '').split('\n')
+    for i, l in enumerate(lines):
+        if 'ERROR:' in l or 'runtime error' in l or 'Assertion' in l or 'SUMMARY' in l:
+            return ' | '.join(x.strip() for x in lines[i:i + 4] if x.strip())[:700]
+    return (err or '')[-400:]
 
 
 def first_difference(a, b):
@@ -516,7 +526,7 @@ def run_objects(binary, cases, tag=''):
                 break
     exit_exp = 'exit: specs=[] n=0 e=1'
     exit_got = got[len(cases)] if len(got) > len(cases) else None
-    return fails, (exit_exp, exit_got), (rc, err[-1500:])
+    return fails, (exit_exp, exit_got), (rc, crash_summary(err) if rc else '')
 
 
 def obj_single_fails(binary):
@@ -562,7 +572,7 @@ def replay(ctx, impl, model, objs):
         print('case:           %s' % case)
         print('implementation: %s' % out.strip().replace('\n', '\n                '))
         if rcx != 0:
-            print('implementation exit status %d: %s' % (rcx, errx[-600:]))
+            print('implementation exit status %d: %s' % (rcx, crash_summary(errx)))
         print('model:          (none: the objects are judged by the list semantics directly)')
         print('oracle:         %s\n                %s' % (exp, ee))
         bad = bool(fails) or ee != eg or rc != 0
@@ -580,7 +590,7 @@ def replay(ctx, impl, model, objs):
     print('case:           %s' % case)
     print('implementation: %s' % (gi if gi else 'no output'))
     if rc != 0:
-        print('implementation exit status %d: %s' % (rc, err[-800:]))
+        print('implementation exit status %d: %s' % (rc, crash_summary(err)))
     print('model:          %s' % gm.strip())
     print('specification:  %s' % ga.strip())
     print('oracle:         %s' % ';'.join(h for h, _, _ in steps) + '  (+ unregistered nodes have null links)')
@@ -738,7 +748,7 @@ def main():
                 % (small, jj[0] if jj else '?', jj[1] if jj else '', jj[2] if jj else ''),
                 {'mode': 'list', 'case': small, 'found_by': src, 'original_case': c,
                  'expected': ';'.join(h for h, _, _ in steps) + ' (and null links on every unregistered node)',
-                 'got': (out.strip() or 'no output') + ((' [exit status %d] ' % rc + err[-600:]) if rc else ''),
+                 'got': (out.strip() or 'no output') + ((' [exit status %d] ' % rc + crash_summary(err)) if rc else ''),
                  'model': gm.strip(), 'failing_cases_in_this_run': n_oracle_fail,
                  'replay_cmd': './check C18 --replay <this file>'})
             reported += 1
